@@ -70,10 +70,11 @@ class DumperBase(DataStreamProcessor):
             counter += 1
             yield row
         DumperBase.inc_attr(self.datapackage.descriptor, self.datapackage_rowcount, counter)
-        DumperBase.inc_attr(resource.res.descriptor, self.resource_rowcount, counter)
+        # a resource's own count is what was just written, whatever an earlier dump recorded in its descriptor
+        DumperBase.set_attr(resource.res.descriptor, self.resource_rowcount, counter)
         for descriptor in self.datapackage.descriptor['resources']:
             if descriptor is not resource.res.descriptor and descriptor['name'] == resource.res.descriptor['name']:
-                DumperBase.inc_attr(descriptor, self.resource_rowcount, counter)
+                DumperBase.set_attr(descriptor, self.resource_rowcount, counter)
         resource.res.commit()
         self.datapackage.commit()
 
